@@ -228,7 +228,8 @@ def job_variants(case):
     out = []
     try:
         variants = [("base", {}), ("uuid", {"ids": "uuid"}), ("file", {"as_file": True}),
-                    ("noobs", {"_strip_observers": True}), ("repeat", {}), ("others", {"_others": True})]
+                    ("noobs", {"_strip_observers": True}), ("repeat", {}), ("others", {"_others": "uuid"}),
+                    ("others_testids", {"_others": "test"})]
         if case.get("_draw"):
             variants.append(("draw", {"draw": True, "sched_uuid": "verifdraw"}))
         for name, delta in variants:
@@ -239,7 +240,7 @@ def job_variants(case):
             if delta.get("_strip_observers"):
                 c2["ops"] = [o for o in c2["ops"] if o["op"] not in ("attach", "detach")]
             if delta.get("_others"):
-                calls = run_with_others(c2)
+                calls = run_with_others(c2, delta["_others"])
             else:
                 res, run = sc.run_impl(c2)
                 calls = sc.canon_impl_calls(res)
@@ -256,7 +257,7 @@ def job_variants(case):
         signal.alarm(0)
 
 
-def run_with_others(case):
+def run_with_others(case, ids="uuid"):
     """drive the case while two other schedulers (same program, other schedule) are created and driven in between;
     completions addressed to the others are also sent to the scheduler under test and vice versa (must be rejected)"""
     import impl
@@ -271,9 +272,9 @@ def run_with_others(case):
         return answers_list[k] if k < len(answers_list) else case.get("terminator", sc.TERMINATOR)
 
     imm = case["imm"]
-    main = impl.Run(case["text"], ids="uuid", answers=answers, imm=lambda k: imm[k % len(imm)])
+    main = impl.Run(case["text"], ids=ids, answers=answers, imm=lambda k: imm[k % len(imm)])
     oth_ans = sc.Answers(random.Random(5))
-    others = [impl.Run(case["text"], ids="uuid", answers=oth_ans, imm=lambda k: k % 3 == 0) for _ in range(2)]
+    others = [impl.Run(case["text"], ids=ids, answers=oth_ans, imm=lambda k: k % 3 == 0) for _ in range(2)]
     for o in others:
         for op in sc.DEFAULT_PRELUDE:
             sc.apply_op(o, op)
@@ -286,7 +287,10 @@ def run_with_others(case):
                 o.start()
             elif r < 0.6 and o.pending:
                 o.complete(rng.choice(o.pending))
-            # an event addressed to the other scheduler sent to main, and vice versa
+            # an event addressed to the other scheduler sent to main, and vice versa (UUID mode only: sequential
+            # test ids coincide between instances by construction)
+            if ids != "uuid":
+                continue
             if o.announced and rng.random() < 0.3:
                 from pfdl_scheduler.scheduler import Event
 
@@ -301,6 +305,11 @@ def run_with_others(case):
                 uid = rng.choice(main.announced)
                 if o.s.fire_event(Event("service_finished", {"service_uuid": uid})):
                     cross_accepted.append(uid)
+        if "n" in op and op["n"] >= len(main.announced):
+            rec = {"op": op, "out": [], "ret": None, "exc": "ReplayDiverged", "stdout": ""}
+            rec.update(main.snapshot())
+            main.calls.append(rec)
+            break
         sc.apply_op(main, op)
     res = {"calls": main.calls}
     calls = sc.canon_impl_calls(res)
